@@ -8,12 +8,10 @@
    pause(defer=False) message, end of the grace sleep of a checkpoint taken with the flag set) -- so a deferred
    request by itself never pauses; step level: the request only sets the flag, a checkpoint with the flag set takes
    the checkpoint (cache := []) and starts the grace sleep, whose end performs the hard pause.
-   FINDING C09-a (confirmed on the real RunEngine, witness below): when the checkpoint that the deferred pause reaches
-   follows a clear_checkpoint of the same call, the engine does not pause there -- an explicit checkpoint does not
-   re-establish resumability (_reset_checkpoint_state_meth returns early while _msg_cache is None), so the pause that
-   takes effect turns into FailedPause/abort at the top of the loop.  Class: [finding_C09_a] (Proofs/RE_Hold.v);
-   [C09_a_refuted] is a run in the class that never becomes paused; outside the class (cache <> None) the top of the
-   loop does pause: [C09_pausing_with_checkpoint_pauses].
+   FIXED defect C09-a (fixes/C09-a.diff; the model follows the repaired code): an explicit checkpoint used NOT to
+   re-establish resumability after clear_checkpoint, so a deferred pause reaching such a checkpoint aborted the plan
+   (FailedPause) instead of pausing there.  [C09_checkpoint_honours_deferred] now states that the cache is Some []
+   after ANY checkpoint outside a bundle; the former witness is the regression example [C09_regression_C09a].
    Partial: "no later message is executed before the engine is paused" is NOT a theorem for arbitrary schedules
    (an abort/stop/halt/suspension may land during the grace sleep); it is checked by the implementation-side
    oracle on the corpus.  Wall-clock: the 0.5 s grace sleep is an await point of the model, its length is not modelled. *)
@@ -44,12 +42,15 @@ Theorem C09_defer_request_only_sets_flag :
 Proof. exact defer_request_only_sets_flag. Qed.
 Print Assumptions C09_defer_request_only_sets_flag.
 
-(* a checkpoint outside a bundle takes the checkpoint (so a resume replays nothing) and, with the flag set,
-   starts the grace sleep instead of returning *)
+(* a checkpoint outside a bundle takes the checkpoint -- also after clear_checkpoint --, so a resume replays nothing;
+   with the flag set it starts the grace sleep instead of returning *)
 Theorem C09_checkpoint_honours_deferred :
   forall (P D : Type) (dev : D -> nat -> devmeth -> D * devres) (s : st P D) (x : msg),
     mcmd x = CCheckpoint -> any_bundling P D s = false ->
-    exec_cmd P D dev s x = (reset_checkpoint P D s, if deferred P D s then Susp KCkptSleep else Done (RVal VNone), []).
+    exists s1,
+      exec_cmd P D dev s x = (s1, if deferred P D s then Susp KCkptSleep else Done (RVal VNone), []) /\
+      cache P D s1 = Some [] /\ deferred P D s1 = deferred P D s /\ state P D s1 = state P D s /\
+      rewindable P D s1 = rewindable P D s /\ plans P D s1 = plans P D s /\ resps P D s1 = resps P D s.
 Proof. exact checkpoint_honours_deferred. Qed.
 Print Assumptions C09_checkpoint_honours_deferred.
 
@@ -79,7 +80,7 @@ Theorem C09_pausing_has_a_cause :
 Proof. exact pausing_needs_cause. Qed.
 Print Assumptions C09_pausing_has_a_cause.
 
-(* outside finding class C09-a: pausing with a checkpoint in effect reaches `paused` at the top of the loop (devices
+(* pausing with a checkpoint in effect reaches `paused` at the top of the loop (devices
    stopped, then paused; the caller is woken; the task waits for the run permit) *)
 Theorem C09_pausing_with_checkpoint_pauses :
   forall (P : Type) (presume : P -> input -> outcome P) (plan_of : nat -> P) (D : Type) (dev : D -> nat -> devmeth -> D * devres)
@@ -92,22 +93,12 @@ Theorem C09_pausing_with_checkpoint_pauses :
 Proof. exact pausing_with_checkpoint_pauses. Qed.
 Print Assumptions C09_pausing_with_checkpoint_pauses.
 
-(* finding C09-a: a run in the class (deferred pause pending at a checkpoint that follows clear_checkpoint) that never
-   becomes paused *)
-Example C09_a_refuted :
-  exists tapes ledger paus stag rec evs,
-    finding_C09_a (itrace tapes ledger paus stag rec evs) = true /\ In (EvReqPause true) evs /\
-    no_bad (snd (irun tapes ledger paus stag rec evs)) = true /\
-    ~ (exists a, In (OState a Paused) (snd (irun tapes ledger paus stag rec evs))).
-Proof. exact c09_a_refuted. Qed.
-
 (* the full statement (not proved as one theorem: see header) *)
 Definition C09_full : Prop :=
   forall (P : Type) (presume : P -> input -> outcome P) (plan_of : nat -> P) (D : Type) (dev : D -> nat -> devmeth -> D * devres)
          (d : D) (paus stag : list nat) (rec : bool) (evs1 evs2 : list event),
     let s1 := fst (run P presume plan_of D dev (init P D d paus stag rec) (evs1 ++ [EvReqPause true])) in
     deferred P D s1 = true ->
-    finding_C09_a (trace P presume plan_of D dev (init P D d paus stag rec) (evs1 ++ [EvReqPause true] ++ evs2)) = false ->
     Forall (fun e => e = EvTask) evs2 ->
     let o := snd (run P presume plan_of D dev s1 evs2) in
     (forall x, In x o -> match x with OBad _ => False | _ => True end) ->
@@ -123,10 +114,16 @@ Example C09_nonvacuous :
   mok (mon_run mon0 (itrace ex_defer_tapes ex_defer_ledger ex_defer_paus ex_defer_stag ex_defer_rec ex_defer_evs)) = true /\
   In (TObs (OState Running Pausing)) (itrace ex_defer_tapes ex_defer_ledger ex_defer_paus ex_defer_stag ex_defer_rec ex_defer_evs).
 Proof. exact c09_deferred_takes_effect_at_checkpoint. Qed.
-Example C09_nonvacuous_outside_class :
-  finding_C09_a (itrace ex_defer_tapes ex_defer_ledger ex_defer_paus ex_defer_stag ex_defer_rec ex_defer_evs) = false /\
-  finding_C09_a (itrace ex_defer_late_tapes ex_defer_late_ledger ex_defer_late_paus ex_defer_late_stag ex_defer_late_rec ex_defer_late_evs) = false.
-Proof. exact c09_examples_outside_class. Qed.
+Example C09_regression_C09a :
+  check ex_c09a_tapes ex_c09a_ledger ex_c09a_paus ex_c09a_stag ex_c09a_rec ex_c09a_evs ex_c09a_obs = true /\
+  In (EvReqPause true) ex_c09a_evs /\
+  In (OMsg {| mid := Some 2; mcmd := CClearCheckpoint; mobj := None; mrun := 0 |})
+     (snd (irun ex_c09a_tapes ex_c09a_ledger ex_c09a_paus ex_c09a_stag ex_c09a_rec ex_c09a_evs)) /\
+  In (OOut OutInterrupted Paused false true) (snd (irun ex_c09a_tapes ex_c09a_ledger ex_c09a_paus ex_c09a_stag ex_c09a_rec ex_c09a_evs)) /\
+  In (OOut (OutReturn [0]) Idle false true) (snd (irun ex_c09a_tapes ex_c09a_ledger ex_c09a_paus ex_c09a_stag ex_c09a_rec ex_c09a_evs)) /\
+  forallb (fun x => match x with OPlanIn _ (Throw _) => false | _ => true end)
+          (snd (irun ex_c09a_tapes ex_c09a_ledger ex_c09a_paus ex_c09a_stag ex_c09a_rec ex_c09a_evs)) = true.
+Proof. exact c09_checkpoint_after_clear_pauses. Qed.
 Example C09_nonvacuous_pending :
   In (OOut (OutReturn [0]) Idle true true)
      (snd (irun ex_defer_late_tapes ex_defer_late_ledger ex_defer_late_paus ex_defer_late_stag ex_defer_late_rec ex_defer_late_evs)).
